@@ -14,13 +14,18 @@ LEVEL = "proof"
 F = "moclo/moclo/core/_assembly.py"
 FILES = [F]
 FUNCTIONS = [(F, "AssemblyManager._deref_citations"), (F, "AssemblyManager._ref_citations"),
+             (F, "AssemblyManager._save_citations"), (F, "AssemblyManager._restore_citations"),
              (F, "AssemblyManager.assemble")]
 ASSUMES = ["D-RE-CIT: the citation pattern matches exactly the texts '[' digits ']' (prefix match) and group 1 is the digits",
            "D-COPY", "D-REC-SLICE", "D-REC-ADD",
-           "pointwise model: a record's citation qualifiers are represented by one generic entry of one generic feature"]
+           "pointwise model (_deref/_save/_restore): a record's citation qualifiers are represented by one generic entry of one generic feature",
+           "indexed model (_ref_citations): features = sequence of distinct identities, cite(f,i) = reference cited by entry i; "
+           "Reference == Reference is equality of the abstract reference identity",
+           "D-LIST: list.index returns the least position / ValueError, append adds at the end, `in` is membership"]
 TRUSTED = ["CPython re on the citation pattern", "Bio.SeqFeature.Reference equality"]
-EXPLANATION = ("body VCs of _deref_citations / _ref_citations on the generic citation entry (index <-> reference, bracketed "
-               "1-based index, references appended once) and the composition in assemble(); lemmas L1-L3")
+EXPLANATION = ("body VCs of _deref_citations / _save_citations / _restore_citations on the generic citation entry, of "
+               "_ref_citations with invariants for both loops (bracketed 1-based index of the cited reference, listed references "
+               "kept in place, none twice, every added one cited) and the composition in assemble(); lemmas L0, L3")
 
 
 def obligations(ctx):
@@ -182,6 +187,15 @@ def bounded(ctx):
                     if len(samples) < 2 and nrefs == 2:
                         samples.append(dict(cfg=cfg, product_references=titles,
                                             product_citations={f.qualifiers.get("label", ["?"])[0]: f.qualifiers.get("citation") for f in prod.features if "citation" in f.qualifiers}))
+    # the re-indexing pass called directly on small records (the contract's clauses as oracle)
+    for fs, r0 in ref_pass_cases():
+        evals += 1
+        pb = check_ref_pass(ns, fs, r0)
+        if any(c for c in fs if c):
+            distinct.add(("refpass", repr(fs), repr(r0)))
+        if pb:
+            viol.append(dict(name="refpass_%s" % pb[0][:40], what="_ref_citations(features citing %r, references %r): %s" % (fs, r0, "; ".join(pb[:3])),
+                             case=dict(features=fs, references=r0)))
     uniq = {}
     for v in viol:
         uniq.setdefault(v["name"], v)
@@ -189,20 +203,96 @@ def bounded(ctx):
                 rule="BsaI vector + 2 modules; reference lists of length 0-3 per input; features citing one or two references, "
                      "inside and outside the retained fragment; a reference shared between inputs or not; a reference list with two "
                      "equal entries; 3 consecutive calls; checked: bracketed form, each product citation resolves to the reference "
-                     "its source feature cited, product reference list = cited references, each once; inputs' indices unchanged",
-                bound="2 modules, <= 3 references per record, 3 calls", samples=samples,
+                     "its source feature cited, product reference list = cited references, each once; inputs' indices unchanged; "
+                     "plus _ref_citations called directly on every record with <= 2 features x <= 2 entries over 4 references and 6 "
+                     "initial reference lists",
+                bound="2 modules, <= 3 references per record, 3 calls; direct calls: <= 2 features, <= 2 entries", samples=samples,
                 violations=list(uniq.values())[:20], n_violations=len(uniq))
 
 
+def check_ref_pass(ns, feats_spec, r0_spec):
+    """call the real _ref_citations on a record whose features cite references as in feats_spec (lists of reference
+    numbers) and whose reference list is r0_spec (None = no list); returns the clauses of the contract that fail"""
+    from Bio.Seq import Seq
+    from Bio.SeqRecord import SeqRecord
+    from Bio.SeqFeature import SeqFeature, FeatureLocation, Reference
+    core = ns["moclo.core"]
+
+    def ref(k):
+        r = Reference()
+        r.title = "ref %d" % k
+        return r
+
+    pool = {k: ref(k) for k in range(4)}
+    feats = [SeqFeature(FeatureLocation(0, 2, strand=1), type="misc_feature", qualifiers=({"citation": [pool[k] for k in cs]} if cs is not None else {}))
+             for cs in feats_spec]
+    ann = {} if r0_spec is None else {"references": [pool[k] for k in r0_spec]}
+    rec = SeqRecord(Seq("ACGT"), features=feats, annotations=ann)
+    mgr = object.__new__(core._assembly.AssemblyManager)
+    try:
+        mgr._ref_citations(rec)
+    except Exception as e:
+        return ["raised %r" % (e,)]
+    pb = []
+    R = rec.annotations.get("references")
+    if R is None:
+        return ["no reference list afterwards"]
+    r0 = list(r0_spec or [])
+    if [x.title for x in R[:len(r0)]] != ["ref %d" % k for k in r0]:
+        pb.append("initial-references-are-kept-in-place")
+    titles = [x.title for x in R]
+    if len(set(titles)) != len(titles):
+        pb.append("no-reference-listed-twice")
+    cited = {"ref %d" % k for cs in feats_spec if cs for k in cs}
+    if any(t not in cited for t in titles[len(r0):]):
+        pb.append("every-added-reference-is-cited-by-a-feature")
+    for f, cs in zip(feats, feats_spec):
+        got = f.qualifiers.get("citation", [])
+        if len(got) != len(cs or []):
+            pb.append("number of entries changed")
+            continue
+        for c, k in zip(got, cs or []):
+            ok = isinstance(c, str) and c.startswith("[") and c.endswith("]") and c[1:-1].isdigit() and 1 <= int(c[1:-1]) <= len(R) \
+                and c == "[%d]" % int(c[1:-1]) and R[int(c[1:-1]) - 1].title == "ref %d" % k
+            if not ok:
+                pb.append("every-citation-is-the-bracketed-1-based-index-of-its-reference (entry %r for reference %d, list %r)" % (c, k, titles))
+    return pb
+
+
+def ref_pass_cases():
+    import itertools
+    lists = [None, [], [0], [1], [0, 0], [0, 1], [1, 0], [2, 1]]
+    for r0 in (None, [], [0], [1, 0], [2], [3, 1]):
+        for nf in (0, 1, 2):
+            for fs in itertools.product(lists, repeat=nf):
+                yield list(fs), r0
+
+
 def replay(ctx, ob, model):
-    return None, "pointwise counter-models are searched natively by the bounded layer"
+    """obligations of _ref_citations: the counter-model fixes sequences and uninterpreted functions of the indexed model;
+    the replay searches its neighbourhood natively (<= 2 features, <= 2 entries each, <= 2 listed references) with the
+    contract's clauses as the oracle"""
+    if ob.meta.get("function") != "AssemblyManager._ref_citations":
+        return None, "pointwise counter-models are searched natively by the bounded layer"
+    from pyvc import native
+    ns = native.load(ctx.repo_root)
+    for fs, r0 in ref_pass_cases():
+        pb = check_ref_pass(ns, fs, r0)
+        if pb:
+            return True, dict(call="AssemblyManager._ref_citations(record with feature citations %r, references %r)" % (fs, r0),
+                              problems=pb[:4], note="found in the neighbourhood of the counter-model", model=model)
+    return False, dict(note="no failing input among <=2 features x <=2 entries x <=2 listed references", model=model)
 
 
-LEVEL_TEXT = ("Deductive part: the frame/restoration obligations of assemble() on the citation cells and the arithmetic lemmas of "
-              "the index <-> reference correspondence; the two citation passes themselves are covered by assumed contracts at "
-              "this level and by the bounded part (see level_note).")
-LEVEL_NOTE = ("The bodies of _deref_citations/_ref_citations are NOT under contract yet (assumed contracts D/R on abstract cells); "
-              "what decides the numbering clauses is the bounded part: 14 configurations x 3 calls on real records. Level claimed "
-              "`other` for that reason.")
-LEVEL = "other"
-MANIFEST_LEVEL = "other"
+LEVEL_TEXT = ("Deductive: the bodies of _deref_citations (pointwise model: generic feature, generic entry) and _ref_citations "
+              "(indexed model with loop invariants for both loops: every processed entry is the bracketed 1-based index of the "
+              "reference it cited, listed references keep their place, none is listed twice, every added one is cited) are "
+              "checked path by path for every record; assemble() is checked against those contracts for the save / dereference / "
+              "re-index / restore composition on the citation cells; lemmas L0, L3 relate index and position.")
+LEVEL_NOTE = ("Assumed: D-RE-CIT (the citation pattern), Reference equality is identity of the abstract reference, list/dict "
+              "semantics (D-LIST, D-DICT), feature objects of a record are distinct, executor encoding, solvers. The link between "
+              "the two models (pointwise / indexed) and the abstract cells used at the call sites in assemble() is by reading, not "
+              "by proof. Bounded (not proved): 14 configurations x 3 calls on real records and direct calls of _ref_citations on "
+              "small records.")
+LEVEL = "proof"
+MANIFEST_LEVEL = "proof"
